@@ -31,15 +31,15 @@ def preload():
 
 
 def gen_case(rng, tier, idx):
-    big = rng.choice((None, None, None, (-10.0, -20.0, -40.0, -5.0, -60.0), (-25.0, 30.0, -50.0, 10.0)))     # large magnitudes too
+    big = rng.choice((None, None, None, None, (-10.0, -20.0, -40.0, -5.0, -60.0), (-25.0, 30.0, -50.0, 10.0), (0.0,)))     # large magnitudes and all-zero rewards too
     if rng.random() < 0.3:
         spec = gen_mdp_spec(rng, proper=True, discounts=(1.0,), rewards=big or rng.choice((None, (-2.0, -1.0, -1.0, 0.0, 1.0, 0.5))))
     else:
-        spec = gen_mdp_spec(rng, proper=rng.random() < 0.5, discounts=(0.5, 0.8, 0.9, 0.95, 0.99), rewards=big, uniform_actions=rng.random() < 0.25)
+        spec = gen_mdp_spec(rng, proper=rng.random() < 0.5, discounts=(0.999,) if rng.random() < 0.02 else (0.5, 0.8, 0.9, 0.95, 0.99), rewards=big, uniform_actions=rng.random() < 0.25)
     h = gen_heuristic(rng)
     h['at_abs'] = abs(h['at_abs'])       # C03's heuristics never under-estimate, absorbing states (worth 0) included
-    cfg = dict(heur=h, rao=rng.random() < 0.7, rno=rng.random() < 0.7, seed=rng.choice((0, 1, 2, 77)),
-               reuse=rng.randrange(1000) if rng.random() < 0.15 else None, alias=rng.choice(('fresh', 'fresh', 'cached', 'shared')))
+    cfg = dict(heur=h, rao=rng.random() < 0.7, rno=rng.random() < 0.7, seed=rng.choice((0, 1, 2, 77, None)),
+               reuse=rng.randrange(1000) if rng.random() < 0.15 else None, alias=rng.choice(('fresh', 'fresh', 'cached', 'shared', 'tuple')), cap_exact=rng.random() < 0.3)
     plain = idx % 4 == 0
     sched = gen_sched(rng, ('P',) if plain else ('P', 'X', 'X'), budget_choices=(None,), coop=False, cap=200000)
     return dict(spec=spec, cfg=cfg, sched=sched)
@@ -50,7 +50,7 @@ def execute(case, script=None):
     view = MDPView(case['spec'])
     ctx = RunCtx(PROP, view)
     ctx.declare_probes('listener_events', 'absorbing_initial_state', 'multi_initial',
-                       'undiscounted', 'tie_between_actions', 'nonzero_heuristic_at_absorbing', 'planner_reused')
+                       'undiscounted', 'tie_between_actions', 'nonzero_heuristic_at_absorbing', 'planner_reused', 'iteration_cap_exact')
     sched = make_scheduler(case, script, ctx)
     try:
         return _execute(lao, view, case['cfg'], ctx, sched)
@@ -115,51 +115,76 @@ def _execute(lao, view, cfg, ctx, sched):
                 state['main'] = False
                 planner.plan_on(make_mdp(MDPView(sib), ctx, alias=cfg.get('alias', 'fresh')))
                 state['main'] = True
+            state['log0'] = len(sched.log)
             r = planner.plan_on(mdp)
         except (Violation, Inconclusive):
             raise
         except Exception as e:
             raise Violation('exception', f"LAOStar.plan_on raised {type(e).__name__}: {e}", dict(key=f"exception/{type(e).__name__}"))
-    ctx.check(bool(r.converged), 'converged', "LAO* did not report convergence")
-    iv = float(r.initial_value)
-    ctx.check(close6(iv, v0), 'initial-value', lambda: f"initial_value {iv!r} != optimal value of the initial distribution {v0!r}")
-    try:
-        svm = {sid[s]: float(v) for s, v in r.state_value_map.items()}
-    except (KeyError, TypeError, AttributeError) as e:
-        raise Violation('result-shape', f"state_value_map malformed: {type(e).__name__}: {e}")
-    for s, v in svm.items():
-        ctx.check(v >= lb(s), 'upper-bound', lambda: f"value {v!r} held for explored state {s} is below its optimal value {Vs[s]!r}")
-    # the policy, followed from every initial state
-    pol = {}
-    seen = set()
-    fr = list(view.init)
-    seen.update(fr)
-    sol = {sid[s] for s in r.solution_graph.states_to_nodes}
-    while fr:
-        s = fr.pop()
+    def judge(r, tag):
+        ctx.check(bool(r.converged), 'converged', f"{tag}LAO* did not report convergence")
+        iv = float(r.initial_value)
+        ctx.check(close6(iv, v0), 'initial-value', lambda: f"{tag}initial_value {iv!r} != optimal value of the initial distribution {v0!r}")
         try:
-            d = {aid[a]: float(p) for a, p in r.policy.action_dist(sk[s]).items() if p > 0}
-        except Exception as e:
-            raise Violation('policy-closed', f"policy undefined at state {s}, which it reaches itself: {type(e).__name__}: {e}")
-        ctx.check(len(d) > 0 and abs(sum(d.values()) - 1) < 1e-9, 'policy-closed', lambda: f"policy at {s} is not a distribution: {d}")
-        ctx.check(all(a in view.A[s] for a in d), 'policy-available', lambda: f"policy at {s} picks {sorted(d)}, available {view.A[s]}")
-        pol[s] = d
-        if s not in sol:
-            ctx.probe('policy_fallback_state')
-        if s in view.absorbing:
-            continue
-        for a in d:
-            for t in view.T[s, a]:
-                if t not in seen:
-                    seen.add(t)
-                    fr.append(t)
-    full = {s: pol.get(s, {view.A[s][0]: 1.0}) for s in range(view.N) if s not in view.absorbing}
-    try:
-        Vp, _ = evaluate(view, full)
-    except np.linalg.LinAlgError:
-        raise Violation('policy-optimal', "returned policy never reaches an absorbing state from some state (singular evaluation)")
-    vp0 = sum(p * Vp[s] for s, p in view.init.items())
-    ctx.check(close6(vp0, v0), 'policy-optimal', lambda: f"exactly evaluated return of the returned policy {vp0!r} != optimum {v0!r}")
+            svm = {sid[s]: float(v) for s, v in r.state_value_map.items()}
+        except (KeyError, TypeError, AttributeError) as e:
+            raise Violation('result-shape', f"state_value_map malformed: {type(e).__name__}: {e}")
+        for s, v in svm.items():
+            ctx.check(v >= lb(s), 'upper-bound', lambda: f"value {v!r} held for explored state {s} is below its optimal value {Vs[s]!r}")
+        # the policy, followed from every initial state
+        pol = {}
+        seen = set()
+        fr = list(view.init)
+        seen.update(fr)
+        sol = {sid[s] for s in r.solution_graph.states_to_nodes}
+        while fr:
+            s = fr.pop()
+            try:
+                d = {aid[a]: float(p) for a, p in r.policy.action_dist(sk[s]).items() if p > 0}
+            except Exception as e:
+                raise Violation('policy-closed', f"{tag}policy undefined at state {s}, which it reaches itself: {type(e).__name__}: {e}")
+            ctx.check(len(d) > 0 and abs(sum(d.values()) - 1) < 1e-9, 'policy-closed', lambda: f"policy at {s} is not a distribution: {d}")
+            ctx.check(all(a in view.A[s] for a in d), 'policy-available', lambda: f"policy at {s} picks {sorted(d)}, available {view.A[s]}")
+            pol[s] = d
+            if s not in sol:
+                ctx.probe('policy_fallback_state')
+            if s in view.absorbing:
+                continue
+            for a in d:
+                for t in view.T[s, a]:
+                    if t not in seen:
+                        seen.add(t)
+                        fr.append(t)
+        full = {s: pol.get(s, {view.A[s][0]: 1.0}) for s in range(view.N) if s not in view.absorbing}
+        try:
+            Vp, _ = evaluate(view, full)
+        except np.linalg.LinAlgError:
+            raise Violation('policy-optimal', "returned policy never reaches an absorbing state from some state (singular evaluation)")
+        vp0 = sum(p * Vp[s] for s, p in view.init.items())
+        ctx.check(close6(vp0, v0), 'policy-optimal', lambda: f"{tag}exactly evaluated return of the returned policy {vp0!r} != optimum {v0!r}")
+
+    n0 = state.get('log0', 0)
+    judge(r, '')
+    # fault F7: the iteration cap placed exactly at the number of expansions this schedule needs - the search finishes
+    # its last expansion and revision as the cap is reached, so it must still report convergence and the optimal policy
+    K = int(r.iterations)
+    if cfg.get('cap_exact') and K >= 1:
+        from sim.core import Scheduler
+        seg = [(e[0], e[1]) for e in sched.log[n0:]]
+        sub = Scheduler('replay', script=seg, cap=10 ** 6)
+        sched.fire('F7_step_limit')
+        ctx.probe('iteration_cap_exact')
+        state['main'] = False
+        with patched_random([lao], RandomProxy(sub)):
+            try:
+                r2 = lao.LAOStar(heuristic=lambda s: htab[sid[s]], seed=cfg['seed'], randomize_action_order=cfg['rao'],
+                                 randomize_nextstate_order=cfg['rno'], max_lao_star_iterations=K, event_listener_class=L).plan_on(mdp)
+            except (Violation, Inconclusive):
+                raise
+            except Exception as e:
+                raise Violation('exception', f"LAOStar.plan_on (iteration cap {K}) raised {type(e).__name__}: {e}", dict(key=f"exception/{type(e).__name__}"))
+        state['main'] = True
+        judge(r2, f"with max_lao_star_iterations={K}, exactly the {K} expansions this schedule needs: ")
     return ctx.result()
 
 
